@@ -112,6 +112,16 @@ func RedactMongoLog(jsonStr string) (*orderedmap.OrderedMap[string, any], error)
 				attr.Set("command", cmdMap)
 			}
 		}
+		// the command document of an "Assertion while executing command" report
+		if commandArgs, ok := attr.Get("commandArgs"); ok {
+			if cmdMap, ok := commandArgs.(*orderedmap.OrderedMap[string, any]); ok {
+				redactCommand(cmdMap, shouldEagerRedact)
+				if redactNamespaces {
+					redactNamespace(cmdMap)
+				}
+				attr.Set("commandArgs", cmdMap)
+			}
+		}
 		if shouldEagerRedact {
 			planSummary, psOk := attr.Get("planSummary")
 			if psOk {
